@@ -21,6 +21,7 @@ func c04(r *core.Report) {
 	c04Opt(r)
 	c04Dedupe(r)
 	c04OptState(r)
+	c04LoopState(r)
 }
 
 // validatorOf: the Validate method reachable on values of type t (through pointers; a named
@@ -1016,5 +1017,110 @@ func forEachReturnStmt(body ast.Node, fn func(*ast.ReturnStmt)) {
 			fn(x)
 		}
 		return true
+	})
+}
+
+// c04LoopState: what is collected for one item is not carried into the check of the next.
+func c04LoopState(r *core.Report) {
+	p := r.Prog
+	info := p.Pkg("openapi3").TypesInfo
+	r.RunRule("C04.loopstate", "per-item checks see per-item data: in the Validate methods and validate* helpers, a slice that is grown inside a loop (x = append(x, ...)) and also read inside that same loop (its length, its elements, as an argument) is declared inside the loop or reset there; one declared outside accumulates the entries of earlier iterations, so the check made for a later item (an operation's path parameters against the template) is satisfied by what an earlier item declared", 5, func() {
+		n := 0
+		for _, d := range validateFamily(p) {
+			fn := core.FuncName(d)
+			perFn := 0
+			ast.Inspect(d.Body, func(nd ast.Node) bool {
+				var body *ast.BlockStmt
+				switch x := nd.(type) {
+				case *ast.RangeStmt:
+					body = x.Body
+				case *ast.ForStmt:
+					body = x.Body
+				default:
+					return true
+				}
+				// slices appended inside this loop (at any depth) and declared outside it
+				grown := map[types.Object]bool{}
+				reset := map[types.Object]bool{}
+				ast.Inspect(body, func(m ast.Node) bool {
+					as, ok := m.(*ast.AssignStmt)
+					if !ok {
+						return true
+					}
+					for i, l := range as.Lhs {
+						id, ok := l.(*ast.Ident)
+						if !ok || i >= len(as.Rhs) {
+							continue
+						}
+						o := info.ObjectOf(id)
+						if o == nil || (o.Pos() >= nd.Pos() && o.Pos() <= nd.End()) {
+							continue
+						}
+						if _, isSlice := o.Type().Underlying().(*types.Slice); !isSlice {
+							continue
+						}
+						if c, ok := ast.Unparen(as.Rhs[i]).(*ast.CallExpr); ok && core.IsBuiltin(info, c, "append") && len(c.Args) > 0 {
+							if aid, ok := ast.Unparen(c.Args[0]).(*ast.Ident); ok && info.ObjectOf(aid) == o {
+								grown[o] = true
+								continue
+							}
+						}
+						reset[o] = true // any other assignment inside the loop
+					}
+					return true
+				})
+				var gobjs []types.Object
+				for o := range grown {
+					gobjs = append(gobjs, o)
+				}
+				sort.Slice(gobjs, func(i, j int) bool { return gobjs[i].Pos() < gobjs[j].Pos() })
+				for _, o := range gobjs {
+					n++
+					perFn++
+					key := fmt.Sprintf("loopstate:%s/%s#%d", fn, o.Name(), perFn)
+					// read inside the loop other than as the first argument / target of its own append
+					readAt := token.NoPos
+					ast.Inspect(body, func(m ast.Node) bool {
+						id, ok := m.(*ast.Ident)
+						if !ok || info.ObjectOf(id) != o || info.Defs[id] != nil {
+							return true
+						}
+						path := core.PathTo(body, id)
+						for i := len(path) - 2; i >= 0 && i >= len(path)-4; i-- {
+							if as, ok := path[i].(*ast.AssignStmt); ok {
+								for k, l := range as.Lhs {
+									if ast.Unparen(l) == ast.Expr(id) {
+										return true // assignment target
+									}
+									if k < len(as.Rhs) {
+										if c, ok := ast.Unparen(as.Rhs[k]).(*ast.CallExpr); ok && core.IsBuiltin(info, c, "append") && len(c.Args) > 0 && ast.Unparen(c.Args[0]) == ast.Expr(id) {
+											if lid, ok := l.(*ast.Ident); ok && info.ObjectOf(lid) == o {
+												return true // x = append(x, ...)
+											}
+										}
+									}
+								}
+							}
+						}
+						if readAt == token.NoPos {
+							readAt = id.Pos()
+						}
+						return true
+					})
+					switch {
+					case readAt == token.NoPos:
+						r.OK(key, p.Pos(nd.Pos()), "collected in the loop, used after it")
+					case reset[o]:
+						r.OK(key, p.Pos(nd.Pos()), "reset inside the loop")
+					default:
+						r.Bad(key, p.Pos(readAt), fmt.Sprintf("%s grows %s inside this loop and reads it there, but declares it outside: what earlier iterations appended is still in it when a later item is checked", fn, o.Name()))
+					}
+				}
+				return true
+			})
+		}
+		if n == 0 {
+			core.Fail("no slice grown inside a loop found in the validation functions")
+		}
 	})
 }
